@@ -7,6 +7,7 @@ import Driver.Util
 import Driver.Codec
 import Driver.Script
 import Driver.Chunks
+import Driver.Adpcm
 open Sf
 
 def lawOf (s : String) : Option G711.Law :=
@@ -54,4 +55,5 @@ def main (args : List String) : IO UInt32 := do
   | "codec" :: rest => codecCmd rest
   | "script" :: rest => scriptCmd rest
   | "chunks" :: _ => do ChunksCmd.run (← readLines)
+  | "adpcm" :: rest => Driver.Adpcm.cmd rest
   | _ => IO.eprintln "usage: sfmodel <g711|...> ..."; return 2
